@@ -21,7 +21,7 @@ RULE = (
     "targeted at local headers / member data / central directory; per member in turn (each .iwa, each plist, Index.zip of a "
     "package): empty, 1..3 bytes, truncated at/off a chunk boundary, marker byte != 0, length field +-1 / huge, snappy payload "
     "replaced by noise, varint header overlong/truncated, ArchiveInfo replaced by noise, message length beyond the segment; "
-    "encrypted marker member added; metadata plists missing/garbled/well-formed with values of another type (real, int, data, bool, date, array, dict). Oracle: Document(path) returns or raises FileError / "
+    "the same document as a folder package and as a single zip holding Index.zip as a member, with the faults above applied to Index.zip (plus bit flips confined to its central directory) or to a loose file; encrypted marker member added; metadata plists missing/garbled/well-formed with values of another type (real, int, data, bool, date, array, dict). Oracle: Document(path) returns or raises FileError / "
     "FileFormatError / UnsupportedError; any other exception is a violation iff the container loader (ObjectStore.__init__ / "
     "IWork.open and below) is on the traceback - later model-layer exceptions are counted as out_of_scope. cat-numbers main() "
     "in-process must exit 0/1 without a traceback for in-scope faults. Non-trivial: the fault changed bytes the loader reads and "
@@ -218,10 +218,12 @@ def apply_fault(base_bytes, fault, tmp):
     if kind == "encrypted_marker":
         path.write_bytes(rebuild_zip(base_bytes, add=(".iwph", b"\x00" * 16)))
         return path
-    if kind == "package":
-        # folder form: Index.zip (all Index/*) + loose other files, then a fault on Index.zip or a loose file
+    if kind in ("package", "nested"):
+        # folder form: Index.zip (all Index/*) + loose other files, then a fault on Index.zip or a loose file;
+        # "nested" is the same content as one zip file that holds Index.zip as a member (old single-file layout)
         folder = tmp / "p.numbers"
-        folder.mkdir()
+        if kind == "package":
+            folder.mkdir()
         items = pkg.members(io.BytesIO(base_bytes)) if False else None
         with zipfile.ZipFile(io.BytesIO(base_bytes)) as z:
             index_items = [(n, z.read(n)) for n in z.namelist() if n.startswith("Index/")]
@@ -243,10 +245,30 @@ def apply_fault(base_bytes, fault, tmp):
             with zipfile.ZipFile(io.BytesIO(index_zip)) as z:
                 body = z.read(sub["member"])
             index_zip = rebuild_zip(index_zip, replace=(sub["member"], member_fault(body, sub)))
+        elif sub["kind"] == "cd_flips":
+            # bits flipped inside the central directory of Index.zip (names, version and flag bytes, offsets)
+            _infos, start_dir = zip_layout(index_zip)
+            b = bytearray(index_zip)
+            span = max(1, len(b) - start_dir)
+            for off, bit in sub["flips"]:
+                b[start_dir + off % span] ^= 1 << (bit % 8)
+            index_zip = bytes(b)
         elif sub["kind"] == "empty_index":
             index_zip = b""
         elif sub["kind"] == "none":
             pass
+        if kind == "nested":
+            out = io.BytesIO()
+            with zipfile.ZipFile(out, "w") as w:
+                w.writestr(zipfile.ZipInfo("Index.zip"), index_zip)
+                for n, d in others:
+                    if n.endswith("/") or (sub["kind"] == "drop_loose" and n == sub["member"]):
+                        continue
+                    if sub["kind"] == "garble_loose" and n == sub["member"]:
+                        d = member_fault(d, {"mkind": "garble"})
+                    w.writestr(zipfile.ZipInfo(n), d)
+            path.write_bytes(out.getvalue())
+            return path
         (folder / "Index.zip").write_bytes(index_zip)
         for n, d in others:
             if n.endswith("/"):
@@ -423,6 +445,8 @@ def fault_strategy(base_bytes):
         st.fixed_dictionaries({"kind": st.just("flips"), "flips": st.lists(st.tuples(st.integers(0, 1 << 22), st.integers(0, 7)), min_size=1, max_size=4).map(lambda l: [list(x) for x in l])}),
         member_fault_strategy(iwas).map(lambda d: {"kind": "member", **d}),
         st.just({"kind": "empty_index"}), st.just({"kind": "none"}),
+        st.fixed_dictionaries({"kind": st.just("cd_flips"), "flips": st.lists(st.tuples(st.integers(0, 1 << 16), st.integers(0, 7)), min_size=1, max_size=3).map(lambda l: [list(x) for x in l])}),
+        st.fixed_dictionaries({"kind": st.just("cd_flips"), "flips": st.lists(st.tuples(st.integers(0, 1 << 16), st.just(7)), min_size=1, max_size=2).map(lambda l: [list(x) for x in l])}),
         st.fixed_dictionaries({"kind": st.sampled_from(["drop_loose", "garble_loose"]), "member": st.sampled_from(plists)}),
     )
     return st.one_of(
@@ -436,6 +460,8 @@ def fault_strategy(base_bytes):
         st.fixed_dictionaries({"kind": st.just("drop_member"), "member": st.sampled_from(names)}),
         st.just({"kind": "encrypted_marker"}),
         st.fixed_dictionaries({"kind": st.just("package"), "sub": sub}),
+        st.fixed_dictionaries({"kind": st.just("nested"), "sub": sub}),
+        st.fixed_dictionaries({"kind": st.just("nested"), "sub": sub}),
     )
 
 
